@@ -9,19 +9,62 @@ from props import c04_bc
 
 ID = 'C04'
 LEVEL = 'proof'
-RULE = ('exhaustive small scope per routine: source shapes rank 1..3 / extents 1..3 (quick), rank 1..4 / extents 1..4 (thorough); '
-        'reps/repeats 1..3, shifts in [-2n,2n], pad widths 0..2 per side, index lists with negative and repeated entries, '
-        'all valid axes incl. negative and None; random larger shapes after. non-trivial = result differs from the source array')
+RULE = ('exhaustive small scope per routine: source shapes rank 1..3 / extents 1..3 (quick), rank 1..4 / extents 1..4 (thorough) plus '
+        'sampled larger shapes (rank <= 5, extents <= 7); tile reps 1..3 per axis (rep lists shorter / equal / longer than the rank); '
+        'repeat scalar 1..3 and per-element counts 0..3, every axis incl. negative and None; roll shifts in [-2n,2n] per axis and '
+        '[-2N,2N] flat, every axis incl. negative, distinct axis tuples with mixed signs, repeated axes; pad widths 0..2 per side; take '
+        'index lists with negative and repeated entries; concatenate / stack family over every axis and compatible second shape; '
+        'split sections and cut lists; sliding_window windows 1..extent; diagonal / tril / triu / tri / eye offsets in [-3,3] ([-5,5] thorough); '
+        'where / compress over 0/1 patterns; resize targets 1..4; expand spacing 0..2; arange / linspace over integer and quarter grids. '
+        'Every request is answered by the C++ view (IMPL), by the Lean model where one exists (all but arange/linspace/full/zeros/ones), '
+        'and by NumPy or the documented definition (ORACLE). non-trivial = the generator marked the result as different from the source')
 EXHAUSTIVE = {'quick': True, 'thorough': True}
 ANCHORS = {
     'NmVerif.Index.shapeTile / indexTile / tileView': 'index::shape_tile, index::tile, view::tile',
+    'NmVerif.Index.shapeRepeat* / indexRepeat* / repeatView / repeatListView': 'index::shape_repeat, index::repeat, view::repeat',
+    'NmVerif.Index.shapeRoll / normalizeRollIndex / indexRollU / rollView / rollAxesView / rollNoneView': 'index::shape_roll, index::roll (normalize_roll_index), view::roll',
+    'NmVerif.Index.shapePad / indexPad / padView': 'index::shape_pad, index::pad, view::pad',
+    'NmVerif.Index.shapeTake / indexTake / takeView': 'index::shape_take, index::take, view::take',
+    'NmVerif.Index.shapeConcatenate / indexConcatenate / concatenateView': 'index::shape_concatenate, index::concatenate, view::concatenate',
+    'NmVerif.Index.joinReshaped / stackView / hstackView / vstackView / dstackView / columnStackView': 'view::stack, hstack, vstack, dstack, column_stack (reshape + concatenate)',
+    'NmVerif.Index.splitViews': 'view::detail::split_args, view::split',
+    'NmVerif.Index.shapeSlidingWindow / indexSlidingWindow / slidingWindowView': 'index::shape_sliding_window, index::sliding_window, view::sliding_window',
+    'NmVerif.Index.shapeDiagonal / indexDiagonal / diagonalView, diagflatView, trilView, triuView, triGen, eyeGen, identityGen': 'index::shape_diagonal, index::diagonal, index::diagflat, index::tril, index::triu, index::tri, index::eye; view::diagonal, diagflat, tril, triu, tri, eye, identity',
+    'NmVerif.Index.whereView / bcastIdx': 'view::where (broadcast_arrays + select)',
+    'NmVerif.Index.compressView / nonzeroIdx': 'index::shape_compress, index::compress, view::compress',
+    'NmVerif.Index.shapeResize / indexResize / resizeView': 'index::shape_resize, index::resize, view::resize',
+    'NmVerif.Index.shapeExpand / indexExpand / expandView': 'index::shape_expand, index::expand, view::expand',
+    '(no Lean model; IMPL vs NumPy only)': 'view::arange, linspace, full, zeros, ones, full_like, zeros_like, ones_like',
 }
 MANIFEST = dict(
-    text='Proof: Lean theorems X_shape / X_elem / X_inBounds per routine (all ranks, extents, arguments) about a hand-written model of the index functions; tied to the C++ by an exhaustive small-scope differential run of the views and cross-checked against NumPy on every run.',
-    note='Lean kernel + propext/Classical.choice/Quot.sound; model hand-written, fidelity rests on the correspondence run.',
+    text=('Proof: Lean theorems X_shape / X_elem / X_inBounds (all ranks, extents and arguments, positive extents as guard) about a hand-written '
+          'model of the index functions of tile, repeat (scalar / per-element / axis None), roll (any shift, single / several distinct axes / None), '
+          'pad, take, concatenate, resize, compress, tril/triu, diagflat, tri/eye/identity, the stack family (through concatenate + flat-order '
+          'preservation of reshape); one-axis / equal-section cases of expand, sliding_window and split; diagonal for matrices with offset >= 0 '
+          '(partial). The model is tied to the C++ by a differential run of every view over an exhaustive small scope on every check and '
+          'cross-checked against NumPy / the documented definitions; where the unchanged code breaks the property (negative axis in repeat / take / '
+          'concatenate / stack / compress, negative take indices, repeated roll axes, diagonal with negative or too large offset, split cut points beyond '
+          'the extent, arange with negative count or negative integer step and real dtype, linspace num=1) the model mirrors the code, a '
+          '_counterexample theorem records the witness and the input class is a known finding.'),
+    note=('Lean kernel + propext/Classical.choice/Quot.sound; model hand-written, fidelity rests on the correspondence run (IMPL = MODEL on every '
+          'generated request, including the known-defect classes except split cut points beyond the extent); arange / linspace / full / zeros / ones(_like) '
+          'have no Lean model and are checked against NumPy only (real grids with relative tolerance 1e-6); statements listed in partial_statements are not claimed in full.'),
     technique='Lean 4 induction proofs over List Nat shapes + differential correspondence (exhaustive small scope) + NumPy oracle')
-ASSUMPTIONS = []
-PARTIAL = []
+ASSUMPTIONS = [
+    'machine width: model arithmetic is unbounded Nat/Int; a negative C++ int stored into size_t is modelled as 2^64 + v (u64/i2u), loop counters and ranks are far below 2^63',
+    'resize: the float(...) round trip applied after the integer division in index::resize is exact below 2^24 (extents of the scope are far smaller)',
+    'ndarray element access: data_.at(offset) with offset computed in size_t; an index outside the shape whose offset stays below the size is read silently (the harness prints what was read, `oob` when vector::at throws)',
+    'split parts go through view::slice; the model uses stop-start extents (C05 covers the slice arithmetic); a cut point beyond the extent is a known finding and not mirrored',
+    'where: the broadcast rule is the simple right-aligned one (C06 proves the C++ broadcast_to equals it)',
+]
+PARTIAL = [
+    'diagonal2d_*_partial: diagonal proved for rank 2, axes (0,1), 0 <= offset <= columns only; full statement (any rank, any accepted axis pair, any offset with non-negative length) kept in Props/C04.lean, violated by the unchanged code for offset < 0 / beyond the extent',
+    'expand_*: proved for one axis (any accepted sign); several axes / per-axis spacings under correspondence only',
+    'slidingWindow_*: proved for a scalar window on one axis; window lists, axis lists and axis None under correspondence only',
+    'split_*: proved for N equal sections; cut-point lists under correspondence only',
+    'where, arange, linspace, full/zeros/ones(_like): no theorem (where: plumbing over broadcast, C06/C07; generators: IMPL vs NumPy only)',
+    'per-element repeats with axis None: does not instantiate in nmtools (shape_repeat multiplies the product by the repeats list); not runnable, not claimed',
+]
 KNOWN_PREDICATES = {}
 
 H_A = 'h_c04a'
